@@ -730,12 +730,7 @@ func checkDelivery(o *Outcome, sc Scenario, subs []*subRun, writers []*writerRun
 				if a == b {
 					continue
 				}
-				kind := "missing"
-				if len(gotBy[w]) > len(want[w]) {
-					kind = "duplicate-or-extra"
-				} else if len(gotBy[w]) == len(want[w]) {
-					kind = "reordered"
-				}
+				kind := deliveryDefect(want[w], gotBy[w])
 				o.violate(monDelivery, "C10/"+cls+"/delivery/"+kind,
 					"a subscriber live for the whole run did not receive each event of a writer exactly once in order",
 					a, b)
@@ -761,6 +756,41 @@ func checkDelivery(o *Outcome, sc Scenario, subs []*subRun, writers []*writerRun
 			}
 		}
 	}
+}
+
+// deliveryDefect names what is wrong with the events `got` from one writer, given the ones it successfully wrote
+// (`want`, in order): by comparing the two as multisets first — an event received more often than written
+// (`duplicate`), one that was never written (`unexpected-event`), one received less often than written (`missing`) —
+// and only when the multisets agree as a matter of order (`reordered`).
+func deliveryDefect(want, got []ev) string {
+	wrote, left := map[ev]int{}, map[ev]int{}
+	for _, e := range want {
+		wrote[e]++
+		left[e]++
+	}
+	dup, alien := false, false
+	for _, e := range got {
+		left[e]--
+		if left[e] < 0 {
+			if wrote[e] > 0 {
+				dup = true
+			} else {
+				alien = true
+			}
+		}
+	}
+	switch {
+	case dup:
+		return "duplicate"
+	case alien:
+		return "unexpected-event"
+	}
+	for _, n := range left {
+		if n > 0 {
+			return "missing"
+		}
+	}
+	return "reordered"
 }
 
 func fmtEvs(es []ev) string {
